@@ -3,6 +3,7 @@ import Xrl.Spec.Lookup
 import Xrl.Spec.Interp
 import Xrl.Spec.DataInv
 import Xrl.Spec.Scatter
+import Xrl.Spec.Groups
 /-!
 # `spec.*` operations of the driver: the executable specifications in the `Float` reading
 
@@ -15,6 +16,7 @@ open Spec
 def fmtE : Expect Float → String
   | .value v => "value " ++ fmtF v
   | .fails => "fails"
+  | .any => "any"
 
 def dispatchSpec (T : Tables Float) (fn : String) (a : Array String) : Option String :=
   match fn, a.size with
@@ -44,6 +46,8 @@ def dispatchSpec (T : Tables Float) (fn : String) (a : Array String) : Option St
   | "spec.CS_KN", 1 => some (fmtE (Spec.CS_KN (pF a[0]!)))
   | "spec.ComptonEnergy", 2 => some (fmtE (Spec.ComptonEnergy (pF a[0]!) (pF a[1]!)))
   | "spec.MomentTransf", 2 => some (fmtE (Spec.MomentTransf (pF a[0]!) (pF a[1]!)))
+  | "spec.LineEnergy", 2 => some (fmtE (Spec.LineEnergy T (pI a[0]!) (pI a[1]!)))
+  | "spec.RadRate", 2 => some (fmtE (Spec.RadRate T (pI a[0]!) (pI a[1]!)))
   | "spec.shapeFailures", 0 => some ("shape " ++ toString ((Spec.shapeFailures T).map (fun p => p.1 ++ ":" ++ toString p.2)))
   | _, _ => none
 
